@@ -711,10 +711,32 @@ def split_new_struct_locals(d, ref_adts):
         return []
     adts = {a["path"]: a for a in d.get("adts", [])}
     new = {p_: a for p_, a in adts.items() if a["kind"] == "Struct" and p_ not in ref_adts and len(a["variants"]) == 1 and not a["file"].startswith("/")}
-    if not new:
-        return []
+
+    def tuple_fields(ty):
+        """field types of a tuple type `(A, B, ..)` (top-level commas), or None"""
+        if not (ty.startswith("(") and ty.endswith(")")) or ty == "()":
+            return None
+        out, depth, cur = [], 0, ""
+        for ch in ty[1:-1]:
+            if ch in "(<[":
+                depth += 1
+            elif ch in ")>]":
+                depth -= 1
+            if ch == "," and depth == 0:
+                out.append(cur.strip())
+                cur = ""
+            else:
+                cur += ch
+        if cur.strip():
+            out.append(cur.strip())
+        return out if len(out) >= 2 else None
 
     def head(ty):
+        # a tuple local (`let (value, flag) = match k { A => (x, true), B => (y, false) }`) is a struct without a name: its type is its own key
+        if tuple_fields(ty) is not None:
+            if ty not in new:
+                new[ty] = {"variants": [{"fields": [{"name": str(i_), "ty": t_} for i_, t_ in enumerate(tuple_fields(ty))]}], "tuple": True}
+            return ty
         m = re.match(r"([A-Za-z_][\w:]*)", ty)
         return m.group(1) if m else None
 
@@ -737,7 +759,8 @@ def split_new_struct_locals(d, ref_adts):
                 whole_copy = None
                 if lhs["l"] in cand and not lhs["proj"]:
                     S = cand[lhs["l"]]
-                    if rv["k"] == "agg" and isinstance(rv["kind"], dict) and rv["kind"].get("adt") == S and len(rv["ops"]) == len(new[S]["variants"][0]["fields"]):
+                    if (rv["k"] == "agg" and len(rv["ops"]) == len(new[S]["variants"][0]["fields"])
+                            and ((isinstance(rv["kind"], dict) and rv["kind"].get("adt") == S) or (rv["kind"] == "tuple" and new[S].get("tuple")))):
                         # the fields are assigned one after the other: none of them may read the struct being built
                         if any(p_["l"] == lhs["l"] for p_ in rps):
                             bad.add(lhs["l"])
